@@ -117,3 +117,10 @@ Example C04_move_short_name_refuted :
   Known04 tiny LATEST (wof mv_pre) mv_op = true /\
   ~ Inv04 tiny tiny_check_fn (wof (mv_pre ++ [mv_op])).
 Proof. exact K04_move_short_name_refuted. Qed.
+
+Example C04_copy_container_refuted :
+  (TreeFacts (wof cc_pre) /\ Inv04 tiny tiny_check_fn (wof cc_pre)) /\
+  Known04 tiny LATEST (wof cc_pre) cc_op = true /\
+  (exists i w', Tiny.run cc_op (wof cc_pre) = Val (OK (VElem i), w')) /\
+  ~ Inv04 tiny tiny_check_fn (wof (cc_pre ++ [cc_op])).
+Proof. exact K04_copy_container_refuted. Qed.
